@@ -547,32 +547,31 @@ func genExpiry() *rapid.Generator[Case] {
 	})
 }
 
-// genFlaky draws a flaky-load case (the strategy is assigned by the caller): FAULTY (1-8 entries) answers
-// 5xx to one request in 2-5 and 200 to the others, GOOD answers 200; 8-24 keep-alive clients, in 3 of 4
-// draws all free-running back to back, else half of them in synchronised volleys; passive checks on in
-// 7 of 8 draws with an unhealthy_threshold of 2, 5, 50 or 1000 (with a high threshold the flaky backend is
-// hardly ever ejected: counted failures and successes alternate for the whole burst).
+// genFlaky draws a flaky-load case (the strategy is assigned by the caller): FAULTY is listed under 4-32
+// backend names (each entry has its own health state and failure count), GOOD once; 16-64 keep-alive
+// clients. The free-running clients (none, a quarter or half of them) send back to back and FAULTY
+// answers 5xx to one of their requests in 2-5; the others send in synchronised volleys, 40 a second, and
+// FAULTY answers 5xx to every request of one volley and 200 to every request of the next. Passive checks
+// on in 7 of 8 draws with an unhealthy_threshold of 5, 50 or 1000 (with a high threshold the flaky
+// backend is hardly ever ejected: counted failures and successes alternate for the whole burst).
 func genFlaky() *rapid.Generator[Case] {
 	return rapid.Custom(func(rt *rapid.T) Case {
 		c := Case{Kind: "flaky-load",
-			Cfg: Cfg{FaultyFirst: rapid.Bool().Draw(rt, "faulty_first"), FaultyEntries: rapid.IntRange(1, 8).Draw(rt, "faulty_entries"),
+			Cfg: Cfg{FaultyFirst: rapid.Bool().Draw(rt, "faulty_first"), FaultyEntries: rapid.SampledFrom([]int{4, 8, 16, 24, 32}).Draw(rt, "faulty_entries"),
 				Active: rapid.Bool().Draw(rt, "active"), Plugins: rapid.IntRange(0, 3).Draw(rt, "plugins") == 0,
 				Handler: rapid.IntRange(1, 3).Draw(rt, "handler_timeout"), BackendRead: rapid.IntRange(1, 3).Draw(rt, "backend_read_timeout")},
 			FlakyOneIn: rapid.IntRange(2, 5).Draw(rt, "one_in"),
-			Clients:    rapid.SampledFrom([]int{8, 12, 16, 24}).Draw(rt, "clients"),
+			Clients:    rapid.SampledFrom([]int{16, 32, 48, 64}).Draw(rt, "clients"),
 			Seconds:    rapid.IntRange(lab.Scale(2, 3), lab.Scale(3, 5)).Draw(rt, "seconds")}
-		if rapid.IntRange(0, 7).Draw(rt, "passive") > 0 {
+		if rapid.SampledFrom([]bool{true, true, true, true, true, true, true, false}).Draw(rt, "passive") {
 			c.Cfg.Passive = true
 			// mostly a threshold the burst never (1000) or hardly ever (50) reaches: the flaky backend stays in
-			// rotation with counted failures; with 2 or 5 it is ejected again and again
-			c.Cfg.PassiveThreshold = rapid.SampledFrom([]int{2, 5, 50, 50, 1000, 1000}).Draw(rt, "threshold")
+			// rotation with counted failures; with 5 an entry is ejected by nearly every volley that FAULTY fails
+			c.Cfg.PassiveThreshold = rapid.SampledFrom([]int{1000, 50, 1000, 50, 5}).Draw(rt, "threshold")
 		} else {
 			c.Cfg.PassiveTimeoutOmitted = rapid.Bool().Draw(rt, "timeout_omitted")
 		}
-		c.FreeRunning = c.Clients
-		if rapid.IntRange(0, 3).Draw(rt, "mode") == 0 {
-			c.FreeRunning = c.Clients / 2
-		}
+		c.FreeRunning = []int{0, 0, c.Clients / 4, c.Clients / 2}[rapid.IntRange(0, 3).Draw(rt, "mode")]
 		return c
 	})
 }
